@@ -320,6 +320,30 @@ def rules(ck, P):
         same_pyr = bool(sl) and bool(flips) and ir.local_hid(flips[0]["recv"]) is not None and ir.local_hid(flips[0]["recv"]) == ir.local_hid(sl[0]["recv"])
         ck.check(len(flips) == 1 and not in_loop and same_pyr, "R-COVER-MB", b["q"] + "|flip-once", "the pyramid built from TMS rows is flipped exactly once, after the loop",
                  "row flip of the coverage is applied %d times%s" % (len(flips), " inside the loop" if in_loop else ""), ir.loc(b))
+        # clamping the queried extremes into the grid must not cut valid columns / rows: clamp(0, 2^z - 1)
+        from . import affine as A
+        nbx = [n for n in ir.walk_nodes(b["body"]) if n.get("k") == "call" and (n.get("q") or "").endswith("TileBBox::new") and len(n.get("a", ())) == 5]
+        if nbx:
+            env = A.Env()
+            for y in ir.walk_nodes(b["body"]):
+                if y.get("k") == "let" and "init" in y and y["pat"].get("k") == "bind":
+                    env.m[y["pat"]["hid"]] = A.ev(y["init"], env)
+            cl = [y for a_ in nbx[0]["a"][1:] for y in ir.walk_nodes(a_) if y.get("k") == "mcall" and y.get("name") == "clamp" and len(y.get("a", ())) == 2]
+            badc = []
+            for y in cl:
+                lo = ir.const_eval(y["a"][0], {})
+                hi = A.ev(y["a"][1], env)
+                hs = A.show_stable(hi)
+                # 2^z - 1, possibly capped by the integer type: (1 << z) - 1 or 2.pow(z) - 1 inside an optional min(.., MAX)
+                core = hs
+                m2 = __import__("re").match(r"^min\((.*), (.*)\)$", hs)
+                if m2:
+                    core = m2.group(1) if ("pow" in m2.group(1) or "<<" in m2.group(1) or "shl" in m2.group(1) or "*" in m2.group(1)) else m2.group(2)
+                ok_hi = core.startswith("-1 + ") and ("pow(2" in core or "shl(1" in core or "<<" in core)
+                if lo != 0 or not ok_hi:
+                    badc.append("clamp(%s, %s)" % (lo, hs))
+            ck.check(len(cl) in (0, 4) and not badc, "R-COVER-MB", b["q"] + "|clamp", "the queried extremes are clamped into 0 ..= 2^z - 1 only (%d clamp(s))" % len(cl),
+                     "the level box is clamped with %s: columns / rows that hold tiles are cut from the advertised coverage" % badc[:2], ir.loc(nbx[0]))
         ld = [b2 for b2 in P.bodies if b2["q"].endswith("mbtiles::reader::MBTilesReader::load_meta_data")]
         if ld:
             ll = comp.lets_of(ld[0])
